@@ -167,11 +167,14 @@ NeedsSep(t1, t2) ==
   /\ ~(a = "-" /\ Len(t1) = 1 /\ b # "-")      \* a lone '-' operator needs no space before a name or number ...
   /\ TRUE
 \* ... except that "--" never occurs here and "a -b": a name followed by '-' must be separated (b = "-" is a word char)
-Ws(style, i) == CASE style = 1 -> " " [] style = 2 -> (IF i % 3 = 0 THEN "\t" ELSE IF i % 3 = 1 THEN "\n " ELSE "  ") [] OTHER -> ""
+Ws(style, i) == CASE style = 1 -> " "
+                  [] style = 2 -> (IF i % 3 = 0 THEN "\t" ELSE IF i % 3 = 1 THEN "\n " ELSE "  ")
+                  [] style = 3 -> (IF i % 4 = 0 THEN " \n" ELSE IF i % 4 = 1 THEN "\r\n" ELSE IF i % 4 = 2 THEN "\t\r\n " ELSE " \t\n\n")
+                  [] OTHER -> ""
 RECURSIVE Join(_, _, _)
 Join(ts, style, i) ==
   IF ts = << >> THEN ""
-  ELSE IF Len(ts) = 1 THEN ts[1] \o (IF style = 2 THEN " " ELSE "")
+  ELSE IF Len(ts) = 1 THEN ts[1] \o (IF style = 2 THEN " " ELSE IF style = 3 THEN "\r\n" ELSE "")
   ELSE ts[1] \o (IF style = 0 THEN (IF NeedsSep(ts[1], ts[2]) THEN " " ELSE "") ELSE Ws(style, i)) \o Join(Tail(ts), style, i + 1)
-Render(e, mode, style) == (IF style = 2 THEN " " ELSE "") \o Join(Toks(e, mode), style, 0)
+Render(e, mode, style) == (IF style = 2 THEN " " ELSE IF style = 3 THEN "\n\t" ELSE "") \o Join(Toks(e, mode), style, 0)
 =============================================================================
